@@ -7,4 +7,8 @@ import (
 )
 
 // FuzzGen: coverage-guided search over the generators of this package (see pbt.FuzzGen).
-func FuzzGen(f *testing.F) { pbt.FuzzGen(f) }
+// helpers-concurrently is left out: one case starts 8 goroutines that call every helper 40 times
+// (10-20 ms on a busy machine, a hundred times the cost of a case of the other sub-checks), so with it
+// a sixth of the executions used up nearly all of the fuzzing time; the library code it reaches is
+// the code the other sub-checks reach.
+func FuzzGen(f *testing.F) { pbt.FuzzGen(f, "helpers-concurrently") }
